@@ -65,6 +65,24 @@ theorem keys_valid {s : HH} (h : WF lt s) {k : Nat} (hk : k ∈ keys (abs s)) : 
 /-- the count is the number of live keys -/
 theorem count_eq (s : HH) : (abs s).length = s.count := abs_length s
 
+/-- the hash map always has a free slot, so `hash_find_slot` (a loop without exit in the C code) terminates -/
+theorem free_slot_exists {s : HH} (h : WF lt s) : ∃ j, j < s.hash.size ∧ (s.slot j).idx = 0 := by
+  rw [h.hashSize]
+  have hpow : 2 ^ (s.exp + 1) = 2 * 2 ^ s.exp := by rw [Nat.pow_succ]; omega
+  have := h.countLe
+  exact h.wfs.exists_free s.count (fun i hi => hi.2) (by have := two_pow_pos s.exp; omega)
+
+/-- `cmi_hash_find_index` returns the heap index of a live key and 0 for any other key: the first key match on
+    the probe path is the live slot, never a stale tombstone of an earlier incarnation of the key -/
+theorem findIndex_correct {s : HH} (h : WF lt s) (k : Nat) :
+    (k ∈ keys (abs s) → ∃ i, findIndex s k = .ok i ∧ 1 ≤ i ∧ i ≤ s.count ∧ (s.tag i).key = k) ∧
+    (k ∉ keys (abs s) → findIndex s k = .ok 0) := by
+  constructor
+  · intro hk
+    obtain ⟨i, hi, rfl⟩ := (mem_keys_abs s k).1 hk
+    exact ⟨i, findIndex_of_mem h hi, hi.1, hi.2, rfl⟩
+  · exact fun hk => findIndex_of_not_mem h hk
+
 theorem enqueue_refines [StrictWeak lt] [IgnoresHidx lt] {s : HH} (h : WF lt s) (it : Item) (k : Nat) (d i : Int) :
     let k' := if k = 0 then s.counter + 1 else k
     k' ≠ 0 → k' < 2 ^ 64 → k' ∉ keys (abs s) → (s.count < 2 ^ s.exp ∨ s.exp < 31) →
